@@ -256,21 +256,26 @@ def _unpatch(p):
 
 
 @harness("C01", "foerster_tensor",
-         quick=[dict(N=2, deph=False), dict(N=3, deph=True)],
-         thorough=[dict(N=n, deph=d) for n in (2, 3, 4) for d in (False, True)],
+         quick=[dict(N=2, deph=False), dict(N=3, deph=True), dict(N=2, deph=False, cutoff=2.0)],
+         thorough=[dict(N=n, deph=d) for n in (2, 3, 4) for d in (False, True)] + [dict(N=3, deph=True, cutoff=2.0)],
          functions=[F_FOE + ":FoersterRelaxationTensor.initialize",
                     F_FOE + ":FoersterRelaxationTensor.add_dephasing",
                     F_REL + ":RelaxationTensor.updateStructure"],
          bound="N<=3 levels (thorough 4); Foerster rates arbitrary reals, bath integrals h_n(t) arbitrary complex",
          out="values of the Foerster overlap integrals")
-def foerster_tensor(cx, N, deph):
+def foerster_tensor(cx, N, deph, cutoff=None):
     from quantarhei.qm import FoersterRelaxationTensor
     ham, sbi, time = build_sbi(cx, N, N - 1, Nt=4)
     set_symmetric_hamiltonian(cx, ham)
     p = _patch_foerster_inputs(cx, sbi, N, 4)
     try:
-        FT = FoersterRelaxationTensor(ham, sbi, initialize=False, pure_dephasing=deph)
-        FT.initialize()
+        kw = {} if cutoff is None else dict(cutoff_time=cutoff)
+        FT = FoersterRelaxationTensor(ham, sbi, initialize=False, pure_dephasing=deph, **kw)
+        try:
+            FT.initialize()
+        except (AttributeError, TypeError) as e:
+            cx.fail("constructed", "%s: %s" % (type(e).__name__, str(e)[:100]))
+            return
     finally:
         _unpatch(p)
     trace_and_herm(cx, "R", FT._data)
@@ -304,17 +309,20 @@ def tdfoerster_tensor(cx, N):
 
 
 @harness("C01", "redfield_foerster",
-         quick=[dict(N=2, remainder=True), dict(N=2, remainder=False)],
-         thorough=[dict(N=2, remainder=True), dict(N=2, remainder=False), dict(N=3, remainder=True)],
+         quick=[dict(N=2, remainder=True), dict(N=2, remainder=False), dict(N=2, remainder=True, td=True)],
+         thorough=[dict(N=2, remainder=True), dict(N=2, remainder=False), dict(N=3, remainder=True),
+                   dict(N=2, remainder=True, td=True), dict(N=2, remainder=False, td=True)],
          functions=[F_RF + ":RedfieldFoersterRelaxationTensor._reference_implementation",
+                    D + "tdredfieldfoerster.py:TDRedfieldFoersterRelaxationTensor._reference_implementation",
                     D + "rates/foersterrates.py:_reference_implementation",
                     D + "rates/foersterrates.py:_fintegral",
                     F_RED + ":RedfieldRelaxationTensor._implementation"],
          bound="N=2 levels (thorough 3), N-1 baths, 4 time points; H and the remainder coupling JR arbitrary real "
                "symmetric, quadrature results arbitrary (spline stub); eigenbasis any orthogonal matrix",
          out="the coupling cut-off value itself (JR is arbitrary, including zero)")
-def redfield_foerster(cx, N, remainder):
+def redfield_foerster(cx, N, remainder, td=False):
     from quantarhei.qm.liouvillespace.redfieldfoerster import RedfieldFoersterRelaxationTensor
+    from quantarhei.qm.liouvillespace.tdredfieldfoerster import TDRedfieldFoersterRelaxationTensor
     ham, sbi, time = build_sbi(cx, N, N - 1, Nt=4)
     set_symmetric_hamiltonian(cx, ham)
     set_symmetric_K(cx, sbi, N)
@@ -324,7 +332,11 @@ def redfield_foerster(cx, N, remainder):
     if cx.sym:
         from symnum import linalg
         linalg.use_eigh(eigen_equation=False)
-    RT = RedfieldFoersterRelaxationTensor(ham, sbi)
+    try:
+        RT = (TDRedfieldFoersterRelaxationTensor if td else RedfieldFoersterRelaxationTensor)(ham, sbi)
+    except (AttributeError, TypeError) as e:
+        cx.fail("constructed", "%s: %s" % (type(e).__name__, str(e)[:100]))
+        return
     trace_and_herm(cx, "R", RT._data)
 
 
